@@ -82,6 +82,15 @@ def gen_cases():
         lines.append("end")
         cases.append(lines)
         i += 1
+    # an armed timer that is given an unrepresentable deadline (set_duration(MAX) + update): its old arming is cancelled,
+    # nothing is armed, the wait lasts the whole timeout (or until the wake-up)
+    for timeout, timers in itertools.product(["120", "none"], [["40 park"], ["30 park", "80"], ["60", "25 park"]]):
+        lines = ["case t%d" % i, "timeout " + timeout, "dispatches 2"] + ["timer " + t for t in timers]
+        if timeout == "none":
+            lines.append("waker 150")
+        lines.append("end")
+        cases.append(lines)
+        i += 1
     return cases
 
 
